@@ -78,7 +78,8 @@ def _c13(ctx):
     out.append(r6)
     out.append(eff.rule_flags(ctx, 'X8', T.BAD_FLAGS))
     from .rules import bounds
-    out.append(_x7(ctx, bounds.CODEC_FILES, 50, 35, 15))
+    # float-to-integer conversions are examined in every library file, indexes in the codecs
+    out.append(_x7(ctx, bounds.CODEC_FILES, 50, 35, 35, conv_files=('.cpp', '.hpp')))
     out.append(_x9(ctx, bounds.CODEC_FILES, 5, 200))
     out.append(_x10(ctx))
     out.append(_x2v(ctx))
@@ -87,7 +88,7 @@ def _c13(ctx):
     return out
 
 
-def _x7(ctx, files, fl_idx, fl_proved, fl_conv=0):
+def _x7(ctx, files, fl_idx, fl_proved, fl_conv=0, conv_files=None):
     from .rules import bounds
     from .core import RuleResult
     if ctx.prog.raw.get('precision', 2) != 2:
@@ -95,7 +96,7 @@ def _x7(ctx, files, fl_idx, fl_proved, fl_conv=0):
                              'for GEOGRAPHICLIB_PRECISION=2')
         r.ob(True, {'skipped': True})
         return r
-    r, n, p = bounds.rule_X7(ctx, files)
+    r, n, p = bounds.rule_X7(ctx, files, conv_files)
     r.floor('array indexes examined', n, fl_idx)
     r.floor('indexes proved in range', p, fl_proved)
     r.floor('float-to-integer conversions examined', r.analysed.get('float_to_int_conversions', 0), fl_conv)
@@ -179,7 +180,7 @@ def _c04(ctx):
     s2, nf2, no2 = parity.rule_S2(ctx, [NSP + 'PolarStereographic'])
     s2.floor('Forward/Reverse bodies (UPS projection)', nf2, 2)
     out.append(s2)
-    out.append(_x7(ctx, ('src/UTMUPS.cpp',), 0, 0, 1))
+    out.append(_x7(ctx, ('src/UTMUPS.cpp',), 0, 0, 2, conv_files=('src/UTMUPS.cpp', 'include/GeographicLib/MGRS.hpp')))
     out.append(_h2(ctx, ('TransverseMercator', 'PolarStereographic'), 4, 16))
     from .rules import offsets
     offs, noffs = offsets.rule_OFFS(ctx)
@@ -199,7 +200,7 @@ def _c05(ctx):
         x7r.floor('subscript sites in MGRS::Forward', nsite, 20)
         x7r.floor('sites proved on every path', nproved, 12)
         extra = [x7r]
-    return _exc_rules(ctx, 'C05') + extra + [t4, _w1(ctx, 'C05', 3), _x9(ctx, ('src/MGRS.cpp',), 1, 100), _t3(ctx, {'MGRS'}, 25), _x7(ctx, ('src/MGRS.cpp',), 15, 8)]
+    return _exc_rules(ctx, 'C05') + extra + [t4, _w1(ctx, 'C05', 3), _x9(ctx, ('src/MGRS.cpp',), 1, 100), _t3(ctx, {'MGRS'}, 25), _x7(ctx, ('src/MGRS.cpp',), 15, 8, 2, conv_files=('src/MGRS.cpp', 'include/GeographicLib/MGRS.hpp'))]
 
 
 def _c10(ctx):
@@ -568,7 +569,9 @@ def _c19(ctx):
     from .rules import sibling
     s1h, np1, nn1 = sibling.rule_SIB1(ctx, 'harmonic')
     s1h.floor('assigned names compared between SphericalEngine::Value and Circle', nn1, 20)
-    return [dsp, i1, cap, s1h, _sib2(ctx, 'harmonic')] + _exc_rules(ctx, 'C19', with_lookup=False) + [r6, _x2v(ctx)]
+    x7 = _x7(ctx, (), 0, 0, 2, conv_files=('src/MagneticModel.cpp', 'src/GravityModel.cpp', 'src/MagneticCircle.cpp',
+                                           'src/GravityCircle.cpp', 'src/NormalGravity.cpp'))
+    return [dsp, i1, cap, s1h, _sib2(ctx, 'harmonic')] + _exc_rules(ctx, 'C19', with_lookup=False) + [r6, _x2v(ctx), x7]
 
 
 def _c20(ctx):
@@ -585,7 +588,8 @@ def _c20(ctx):
     from .rules import geoidbounds
     k7, nob, nund = geoidbounds.rule_K7(ctx)
     k7.floor('obligation sites', nob, 12)
-    return [k, k4, cache.rule_K5(ctx), cache.rule_K6(ctx), cache.rule_T5(ctx), x1, k7]
+    x7 = _x7(ctx, (), 0, 0, 5, conv_files=('src/Geoid.cpp', 'include/GeographicLib/Geoid.hpp'))
+    return [k, k4, cache.rule_K5(ctx), cache.rule_K6(ctx), cache.rule_T5(ctx), x1, k7, x7]
 
 
 CHECKS = {
